@@ -417,6 +417,24 @@ def euler(m: Model, d: Data):
     _advance(m, d, d.qacc)
 
 
+@wp.kernel
+def _rk_perturb_activation(
+  # Model:
+  opt_timestep: wp.array[float],
+  # In:
+  act_t0_in: wp.array2d[float],
+  # Data in:
+  act_dot_in: wp.array2d[float],
+  # In:
+  scale: float,
+  # Data out:
+  act_out: wp.array2d[float],
+):
+  worldid, actid = wp.tid()
+  timestep = opt_timestep[worldid % opt_timestep.shape[0]]
+  act_out[worldid, actid] = act_t0_in[worldid, actid] + scale * timestep * act_dot_in[worldid, actid]
+
+
 def _rk_perturb_state(
   m: Model,
   d: Data,
@@ -441,27 +459,13 @@ def _rk_perturb_state(
     outputs=[d.qvel],
   )
 
-  # activation
+  # activation: intermediate Runge-Kutta states are plain X0 + scale * h * dX for every dynamics
+  # type (as mj_RungeKutta does); the exact filter / DC-motor updates belong to the final advance
   if m.na and act_t0 is not None:
     wp.launch(
-      _next_activation,
-      dim=(d.nworld, m.nu),
-      inputs=[
-        m.opt.timestep,
-        m.actuator_dyntype,
-        m.actuator_actadr,
-        m.actuator_actnum,
-        m.actuator_dynprm,
-        m.actuator_gainprm,
-        m.actuator_biasprm,
-        m.actuator_actlimited,
-        m.actuator_actrange,
-        act_t0,
-        d.act_dot,
-        d.actuator_velocity,
-        scale,
-        False,
-      ],
+      _rk_perturb_activation,
+      dim=(d.nworld, m.na),
+      inputs=[m.opt.timestep, act_t0, d.act_dot, scale],
       outputs=[d.act],
     )
 
